@@ -1225,6 +1225,64 @@ def r03v(rep, F):
     rep.require_count('R03v', 'members emptied by clearQuery() and input-state restarts', n, 9)
 
 
+def r03x(rep, F):
+    rep.rule('R03x', 'a goal state added between two solve() calls is handed out next: GoalStates::sampleGoal hands out states_[position mod size] '
+                     'and leaves position = that index + 1, NOT reduced modulo the size (the reduction happens lazily at the next call, with the '
+                     'size of that moment).  Decided by evaluating the function\'s stores to samplePosition_ for every size 1..6 and every '
+                     'position 0..2*size: a position wrapped eagerly returns to 0 after the last state, so a state appended afterwards is '
+                     'skipped and PlannerInputStates, which counts calls against maxSampleCount(), never asks for it')
+    Fg = facts.load_units([src('base', 'goals', 'src', 'GoalStates.cpp')])
+    rep.units.add(src('base', 'goals', 'src', 'GoalStates.cpp'))
+    fn = Fg.one(B + 'GoalStates::sampleGoal')
+
+    def ev(nid, env):
+        n = fn.strip(nid)
+        k = n['k']
+        if k == 'IntegerLiteral':
+            return int(n.get('v'))
+        if k == 'MemberExpr' and n.get('name') == 'samplePosition_':
+            return env['pos']
+        if (n.get('callee') or '').endswith('::size') and 'states_' in fn.fp(n['id']):
+            return env['size']
+        if k == 'BinaryOperator' and n.get('op') in ('+', '-', '*', '%', '/'):
+            a, b = ev(n['ch'][0], env), ev(n['ch'][1], env)
+            return {'+': a + b, '-': a - b, '*': a * b, '%': a % b if b else 0, '/': a // b if b else 0}[n['op']]
+        raise AnalysisBroken('R03x: %s outside the evaluated fragment of sampleGoal' % k)
+
+    stores = [x for x in fn.walk() if (x['k'] in ('BinaryOperator', 'CompoundAssignOperator') and (x.get('op') or '').endswith('=') and
+                                       x.get('op') not in ('==', '!=', '<=', '>=') and (fn.strip(x['ch'][0]) or {}).get('name') == 'samplePosition_') or
+              (x['k'] == 'UnaryOperator' and x.get('op') in ('++', '--') and (fn.strip(x['ch'][0]) or {}).get('name') == 'samplePosition_')]
+    reads = [c for c in fn.walk() if (c.get('callee') or '').endswith('::copyState')]
+    if not stores or len(reads) != 1:
+        raise AnalysisBroken('R03x: stores to samplePosition_ / the copy of the sampled state not found')
+    order = sorted(stores + reads, key=lambda x: (fn.line(x), x['id']))
+    bad = None
+    pts = 0
+    for size in range(1, 7):
+        for pos in range(0, 2 * size + 1):
+            env = {'pos': pos, 'size': size}
+            handed = None
+            for x in order:
+                if x in reads:
+                    idx = [y for y in fn.walk(args(fn, x)[1]) if y['k'] == 'MemberExpr' and y.get('name') == 'samplePosition_']
+                    handed = env['pos'] if idx else None
+                elif x['k'] == 'UnaryOperator':
+                    env['pos'] += 1 if x['op'] == '++' else -1
+                elif x['k'] == 'CompoundAssignOperator':
+                    v = ev(x['ch'][1], env)
+                    env['pos'] = {'+=': env['pos'] + v, '-=': env['pos'] - v, '%=': env['pos'] % v if v else 0}.get(x['op'], env['pos'])
+                else:
+                    env['pos'] = ev(x['ch'][1], env)
+            pts += 1
+            if bad is None and (handed != pos % size or env['pos'] != pos % size + 1):
+                bad = (size, pos, handed, env['pos'])
+    rep.add('R03x', fn.name, 'position-not-wrapped-eagerly', bad is None, fn.where(stores[-1]),
+            'hands out states_[p mod n] and leaves p mod n + 1 (%d (size, position) pairs evaluated)' % pts if bad is None else
+            'with %d goal states and position %d the call hands out index %s and leaves position %d (expected index %d, position %d): after the '
+            'last state the position is back at the first one, and a state appended before the next call is never sampled' %
+            (bad[0], bad[1], bad[2], bad[3], bad[1] % bad[0], bad[1] % bad[0] + 1))
+
+
 def run(rep):
     units = P.geometric_units() + P.control_units() + P.multilevel_units() + P.base_units()
     F = facts.load_units(units)
@@ -1256,6 +1314,7 @@ def run(rep):
     r03r(rep, F, solves)
     r03t(rep, F, solves)
     r03v(rep, F)
+    r03x(rep, F)
     # R03w: what a resumed solve re-registers describes the path it registers (C01's R01y under C03's id)
     from rules import c01_informed
     c01_informed.r01y(rep, F, rule='R03w')
